@@ -219,6 +219,7 @@ static int upipe_rtpr_sub_set_flow_def(struct upipe *upipe,
     struct upipe_rtpr_sub *upipe_rtpr_sub = upipe_rtpr_sub_from_upipe(upipe);
 
     upipe_rtpr_store_flow_def(&upipe_rtpr->upipe, uref_dup(flow_def));
+    uref_free(upipe_rtpr_sub->flow_def);
     upipe_rtpr_sub->flow_def = uref_dup(flow_def);
     return UBASE_ERR_NONE;
 }
